@@ -313,6 +313,27 @@ Plain12OK(c) == LET e == EncPlain12(Plain12Val(c))  d == DecPlain12(e) IN
   /\ \A i \in 1..Len(e) : ~DecPlain12(Take(e, i - 1)).ok          \* every truncation is refused
   /\ LET t == DecPlain12(e \o << 0 >>) IN t.ok /\ t.h = Plain12Val(c)   \* trailing bytes never reach the value
 
+\* whole handshake messages as Handshake.Unmarshal takes them (RFC 6347 4.2.2): a COMPLETE message in one piece, i.e.
+\* fragment_offset = 0 and fragment_length = length = the bytes behind the 12-byte header.  A header that claims the piece
+\* starts at a non-zero offset yet carries length bytes declares more than the message holds (and the value could not be
+\* re-encoded: the encoder writes complete messages only).  Body: Finished (opaque verify_data)
+Hs12Cases == [vlen : {0, 12, 32}, mseq : {0, 3, 65535}]
+Hs12Val(c) == [hdr |-> [type |-> 20, length |-> c.vlen, mseq |-> c.mseq, foff |-> 0, flen |-> c.vlen], body |-> FillNZ(71, c.vlen)]
+EncHs12(m) == EncHsHdr(m.hdr) \o m.body
+DecHs12(b) ==
+  LET d == DecHsHdr(b) IN
+  IF ~d.ok THEN Reject
+  ELSE IF Len(b) - 12 # d.h.length \/ d.h.flen # d.h.length THEN Reject
+  ELSE IF d.h.foff # 0 /\ Broken # "hs_any_offset" THEN Reject
+  ELSE [ok |-> TRUE, used |-> Len(b), h |-> [hdr |-> d.h, body |-> SubSeq(b, 13, Len(b))]]
+Hs12Offsets(e) == << [e EXCEPT ![9] = 5], [e EXCEPT ![7] = 1], [e EXCEPT ![8] = 255, ![9] = 255] >>
+Hs12Out(c) == LET e == EncHs12(Hs12Val(c)) IN
+  [k |-> "hs12", val |-> Hs12Val(c), enc |-> e, variants |-> WithDec(Prefixes(e) \o Trails(e) \o Hs12Offsets(e), DecHs12)]
+\* whatever the decoder accepts is the encoding of the value it returns (so it can be re-encoded to the same bytes)
+Hs12OK(c) == LET e == EncHs12(Hs12Val(c))  d == DecHs12(e) IN
+  /\ d.ok /\ d.h = Hs12Val(c)
+  /\ \A i \in 1..3 : LET x == DecHs12(Hs12Offsets(e)[i]) IN x.ok => EncHs12([hdr |-> [x.h.hdr EXCEPT !.foff = 0], body |-> x.h.body]) = Hs12Offsets(e)[i]
+
 \* all byte strings up to a length over an alphabet that hits the type, flag and length fields
 Alpha == {0, 1, 2, 21, 25, 47, 63, 255}
 StrCases == UNION {[1..n -> Alpha] : n \in 0..(IF Big THEN 5 ELSE 4)}
@@ -504,6 +525,7 @@ Cases ==
     [] Mode = "rec13" -> Rec13Cases
     [] Mode = "hdr12" -> Hdr12Cases
     [] Mode = "uhdr" -> UHdrCases
+    [] Mode = "hs12" -> Hs12Cases
     [] Mode = "plain12" -> Plain12Cases
     [] Mode = "hshdr" -> HsHdrCases
     [] Mode = "alert" -> AlertCases
@@ -525,6 +547,7 @@ Out(c) ==
     [] Mode = "rec13" -> Rec13Out(c)
     [] Mode = "hdr12" -> Hdr12Out(c)
     [] Mode = "uhdr" -> UHdrOut(c)
+    [] Mode = "hs12" -> Hs12Out(c)
     [] Mode = "plain12" -> Plain12Out(c)
     [] Mode = "hshdr" -> HsHdrOut(c)
     [] Mode = "alert" -> AlertOut(c)
@@ -546,6 +569,7 @@ OK(c) ==
     [] Mode = "rec13" -> Rec13OK(c)
     [] Mode = "hdr12" -> Hdr12OK(c)
     [] Mode = "uhdr" -> UHdrOK(c)
+    [] Mode = "hs12" -> Hs12OK(c)
     [] Mode = "plain12" -> Plain12OK(c)
     [] Mode = "hshdr" -> HsHdrOK(c)
     [] Mode = "alert" -> AlertOK(c)
